@@ -40,6 +40,7 @@ type OptSet struct {
 	Memo         bool
 	Debug        bool
 	Stats        bool
+	Init         int // InitState values (grammars with a state store only)
 }
 
 // MCConfig configures the generic model check.
@@ -151,7 +152,7 @@ func (c *Ctx) mcChunk(cfg *MCConfig, gs []*gast.Grammar, base int, rng *rand.Ran
 					}
 					id := fmt.Sprintf("%s/%d/%d/%d", u.Pkg, ii, oi, ei)
 					mc := &mon.Case{ID: id, Pkg: u.Pkg, Input: in, File: os.File, Entry: en, AllowInvalid: os.AllowInvalid,
-						NoRecover: os.NoRecover, MaxExpr: os.MaxExpr, MaxEvents: 4000, Memo: os.Memo, Debug: os.Debug, Stats: os.Stats}
+						NoRecover: os.NoRecover, MaxExpr: os.MaxExpr, MaxEvents: 4000, Memo: os.Memo, Debug: os.Debug, Stats: os.Stats, Init: os.Init}
 					if os.Debug && cfg.DebugOptEvery > 1 && ii%cfg.DebugOptEvery != 0 {
 						continue // Debug(true) runs are I/O heavy: option sets with Debug take every n-th input
 					}
@@ -185,7 +186,7 @@ func (c *Ctx) mcChunk(cfg *MCConfig, gs []*gast.Grammar, base int, rng *rand.Ran
 	parallel(len(keys), 16, func(i int) {
 		cs := keyCase[keys[i]]
 		mres[i] = ref.Run(cs.u.G, cs.in, ref.Opts{Entry: cs.entry, File: cs.os.File, AllowInvalid: cs.os.AllowInvalid,
-			NoRecover: cs.os.NoRecover, MaxExpr: cs.os.MaxExpr, MaxEvents: 4000, StepCap: stepCap, LR: cfg.LR})
+			NoRecover: cs.os.NoRecover, MaxExpr: cs.os.MaxExpr, MaxEvents: 4000, StepCap: stepCap, LR: cfg.LR, Init: cs.os.Init})
 	})
 	for i, k := range keys {
 		models[k] = mres[i]
